@@ -118,8 +118,27 @@ def grid_form(chk, fi, c):
                inconclusive=True, loc=fi.loc())
         return
     seen = set()
+    # locals that merely rename something (x = dt, x = self.dt; bound once) are read through: an inlined helper's parameters are such
+    counts = {}
+    for n in ast.walk(fi.node):
+        if isinstance(n, ast.Name) and isinstance(n.ctx, ast.Store):
+            counts[n.id] = counts.get(n.id, 0) + 1
+    params = {a.arg for a in fi.node.args.args}
+    renames = {}
+    for n in ast.walk(fi.node):
+        if isinstance(n, ast.Assign) and len(n.targets) == 1 and isinstance(n.targets[0], ast.Name) and \
+                isinstance(n.value, (ast.Name, ast.Attribute)) and counts.get(n.targets[0].id) == 1 and n.targets[0].id not in params:
+            renames[n.targets[0].id] = n.value
     for cd in cand:             # a definition per branch (or per inlined helper call) is fine: each must have the form
         norm = Normaliser()
+        for k in renames:
+            norm.env[k] = None
+        for _ in range(3):
+            for k, v in renames.items():
+                if norm.env[k] is None and not any(isinstance(x, ast.Name) and x.id in renames and norm.env[x.id] is None for x in ast.walk(v)):
+                    norm.env[k] = norm.poly(v)
+        for k in [k for k, v in norm.env.items() if v is None]:
+            del norm.env[k]
         p = norm.poly(cd.value).subst_atoms(lambda a: "dt" if a.endswith(".dt") else a)
         if p.canon() in seen:
             continue
@@ -157,21 +176,46 @@ def inverse_rules(chk):
         # events in the entry or in a sibling of the same module it delegates to (fas2signal may simply call fas2values)
         here = lambda e: e.fn.startswith("eqsig.fns.frequency.")
         stores = [e for e in r.events("mutation") if here(e) and e.how == "subscript-store" and e.index is not None and e.index.kind == K_SLICE]
-        sl = []
-        for e in stores:
-            lo, up, _ = e.index.items
-            sl.append((repr(lo.sym) if lo is not None else None, repr(up.sym) if up is not None else None,
-                       "conj" in e.value.tags and "flip" in e.value.tags))
-        want = [("1", "m", False), ("m+1", None, True)]
-        chk.ob("R-INV-DT", c + ".halves", "a[1:n/2] = fas[1:]; a[n/2+1:] = flip(conj(fas[1:])): bins 0 and n/2 stay zero",
-               sorted(sl, key=repr) == sorted(want, key=repr), derived="stores %s" % sl, loc=stores[0].loc if stores else r.fi.loc())
-        srcs = [e.value for e in stores]
-        ok_src = all(v.shape is not None and v.shape[0] == LinExpr("m") - 1 for v in srcs) and len(srcs) == 2
-        chk.ob("R-INV-DT", c + ".source", "both halves are built from fas[1:]", ok_src, derived="source lengths %s" % [v.shape for v in srcs],
-               loc=r.fi.loc())
-        zero = [e for e in r.events("lib-call") if here(e) and e.name == "numpy.zeros"]
-        chk.ob("R-INV-DT", c + ".buffer", "the two-sided buffer is created by np.zeros(2*len(fas), complex)", len(zero) == 1,
-               derived="%d zeros calls" % len(zero), loc=r.fi.loc())
+        cats = [e for e in r.events("lib-call") if here(e) and e.name in ("numpy.concatenate", "numpy.hstack", "numpy.r_") and e.args and
+                getattr(e.args[0], "items", None) and len(e.args[0].items) == 4]
+        if not stores and len(cats) == 1:
+            # the two-sided buffer assembled from its four pieces instead of written into a zeros buffer: [0, fas[1:], 0, flip(conj(fas[1:]))]
+            pcs = cats[0].args[0].items
+            m1 = LinExpr("m") - 1
+
+            def piece(v):
+                ln = v.shape[0] if v.shape else None
+                zero = v.sign == S_ZERO
+                return (repr(ln) if ln is not None else None, "zero" if zero else ("mirror" if ("conj" in v.tags and "flip" in v.tags) else
+                                                                                   ("plain" if "p:fas" in v.tags and "conj" not in v.tags and
+                                                                                    "flip" not in v.tags else "?")))
+            got = [piece(v) for v in pcs]
+            want_p = [("1", "zero"), (repr(m1), "plain"), ("1", "zero"), (repr(m1), "mirror")]
+            chk.ob("R-INV-DT", c + ".halves", "a[1:n/2] = fas[1:]; a[n/2+1:] = flip(conj(fas[1:])): bins 0 and n/2 stay zero",
+                   got == want_p, derived="pieces %s" % got, loc=cats[0].loc)
+            chk.ob("R-INV-DT", c + ".source", "both halves are built from fas[1:]", got[1][0] == repr(m1) and got[3][0] == repr(m1),
+                   derived="piece lengths %s" % [g[0] for g in got], loc=cats[0].loc)
+            chk.ob("R-INV-DT", c + ".buffer", "bins 0 and n/2 are zero pieces of length 1", got[0] == ("1", "zero") and got[2] == ("1", "zero"),
+                   derived="%s / %s" % (got[0], got[2]), loc=cats[0].loc)
+            sl = [("1", "m", False), ("m+1", None, True)] if got == want_p else got
+        else:
+            sl = []
+            for e in stores:
+                lo, up, _ = e.index.items
+                sl.append((repr(lo.sym) if lo is not None else None, repr(up.sym) if up is not None else None,
+                           "conj" in e.value.tags and "flip" in e.value.tags))
+            want = [("1", "m", False), ("m+1", None, True)]
+            located = bool(stores)
+            chk.ob("R-INV-DT", c + ".halves", "a[1:n/2] = fas[1:]; a[n/2+1:] = flip(conj(fas[1:])): bins 0 and n/2 stay zero",
+                   sorted(sl, key=repr) == sorted(want, key=repr), derived="stores %s" % sl, loc=stores[0].loc if stores else r.fi.loc(),
+                   inconclusive=not located)
+            srcs = [e.value for e in stores]
+            ok_src = all(v.shape is not None and v.shape[0] == LinExpr("m") - 1 for v in srcs) and len(srcs) == 2
+            chk.ob("R-INV-DT", c + ".source", "both halves are built from fas[1:]", ok_src, derived="source lengths %s" % [v.shape for v in srcs],
+                   loc=r.fi.loc(), inconclusive=not located)
+            zero = [e for e in r.events("lib-call") if here(e) and e.name == "numpy.zeros"]
+            chk.ob("R-INV-DT", c + ".buffer", "the two-sided buffer is created by np.zeros(2*len(fas), complex)", len(zero) == 1,
+                   derived="%d zeros calls" % len(zero), loc=r.fi.loc(), inconclusive=not located)
         out[q] = (sorted(sl, key=repr), spec.describe((R, DT)))
         if q.endswith("fas2values"):
             expect(chk, "R-INV-DT", c + ".result", r.ret, lin=[R], deg={DT: -1}, loc=r.fi.loc())
